@@ -207,3 +207,276 @@ theorem isEqual_iff (t1 t2 : PTree τ (Leaf ε)) (h : t1.td = t2.td ∧ t1.leave
     exact (arrayEqual_iff _ _).2 (hk k hk1 hk2)
 
 end Pytree
+
+namespace Pytree
+variable {τ ε : Type} [DecidableEq τ] [DecidableEq ε]
+
+/-! ### the assertion helpers -/
+
+theorem assertDifferent_ok_iff (t1 t2 : PTree τ (Leaf ε)) :
+    assertDifferent t1 t2 = .ok () ↔ isEqual t1 t2 = some false := by
+  unfold assertDifferent
+  cases isEqual t1 t2 with
+  | none => simp
+  | some b => cases b <;> simp
+
+/-- the 'trees are different' assertion FAILS (AssertionError) exactly when the equality helper is true -/
+theorem assertDifferent_fails_iff (t1 t2 : PTree τ (Leaf ε)) :
+    assertDifferent t1 t2 = .error .sameValues ↔ isEqual t1 t2 = some true := by
+  unfold assertDifferent
+  cases isEqual t1 t2 with
+  | none => simp
+  | some b => cases b <;> simp
+
+theorem assertEqual_ok_iff (t1 t2 : PTree τ (Leaf ε)) :
+    assertEqual t1 t2 = .ok () ↔ isEqual t1 t2 = some true := by
+  unfold assertEqual
+  cases isEqual t1 t2 with
+  | none => simp
+  | some b => cases b <;> simp
+
+theorem assertEqual_fails_iff (t1 t2 : PTree τ (Leaf ε)) :
+    assertEqual t1 t2 = .error .differ ↔ isEqual t1 t2 = some false := by
+  unfold assertEqual
+  cases isEqual t1 t2 with
+  | none => simp
+  | some b => cases b <;> simp
+
+/-- both helpers raise the structure error exactly when the structures differ -/
+theorem assert_structure_iff (t1 t2 : PTree τ (Leaf ε)) :
+    (assertDifferent t1 t2 = .error .structureMismatch ↔ ¬ (t1.td = t2.td ∧ t1.leaves.length = t2.leaves.length)) ∧
+    (assertEqual t1 t2 = .error .structureMismatch ↔ ¬ (t1.td = t2.td ∧ t1.leaves.length = t2.leaves.length)) := by
+  by_cases h : t1.td = t2.td ∧ t1.leaves.length = t2.leaves.length
+  · have e : isEqual t1 t2 = some ((List.zipWith arrayEqual t1.leaves t2.leaves).all id) := by
+      unfold isEqual; rw [if_pos h]
+    unfold assertDifferent assertEqual
+    rw [e]
+    generalize (List.zipWith arrayEqual t1.leaves t2.leaves).all id = b
+    cases b <;> simp [h]
+  · have e : isEqual t1 t2 = none := by unfold isEqual; rw [if_neg h]
+    unfold assertDifferent assertEqual
+    rw [e]
+    exact ⟨⟨fun _ => h, fun _ => rfl⟩, ⟨fun _ => h, fun _ => rfl⟩⟩
+
+/-- on trees of the same structure exactly one of the two assertions passes; `assert_trees_are_equal` passes exactly
+when every pair of leaves has equal shape and equal elements, `assert_trees_are_different` exactly when some pair
+differs in shape or in an element -/
+theorem assertEqual_iff_leaves (t1 t2 : PTree τ (Leaf ε)) (h : t1.td = t2.td ∧ t1.leaves.length = t2.leaves.length) :
+    assertEqual t1 t2 = .ok () ↔
+      ∀ k (h1 : k < t1.leaves.length) (h2 : k < t2.leaves.length),
+        t1.leaves[k].shape = t2.leaves[k].shape ∧ t1.leaves[k].data = t2.leaves[k].data := by
+  rw [assertEqual_ok_iff, isEqual_iff t1 t2 h]
+
+theorem isEqual_some_of_structure (t1 t2 : PTree τ (Leaf ε)) (h : t1.td = t2.td ∧ t1.leaves.length = t2.leaves.length) :
+    ∃ b, isEqual t1 t2 = some b := by
+  unfold isEqual; rw [if_pos h]; exact ⟨_, rfl⟩
+
+theorem assertDifferent_iff_leaves (t1 t2 : PTree τ (Leaf ε)) (h : t1.td = t2.td ∧ t1.leaves.length = t2.leaves.length) :
+    assertDifferent t1 t2 = .ok () ↔
+      ∃ k, ∃ (h1 : k < t1.leaves.length) (h2 : k < t2.leaves.length),
+        t1.leaves[k].shape ≠ t2.leaves[k].shape ∨ t1.leaves[k].data ≠ t2.leaves[k].data := by
+  rw [assertDifferent_ok_iff]
+  obtain ⟨b, hb⟩ := isEqual_some_of_structure t1 t2 h
+  have hi := isEqual_iff t1 t2 h
+  rw [hb] at hi ⊢
+  cases b with
+  | true =>
+    simp only [Option.some.injEq, Bool.true_eq_false, false_iff, true_iff] at hi ⊢
+    rintro ⟨k, h1, h2, hne⟩
+    have := hi k h1 h2
+    rcases hne with hne | hne
+    · exact hne this.1
+    · exact hne this.2
+  | false =>
+    simp only [Option.some.injEq, Bool.false_eq_true, false_iff, true_iff] at hi ⊢
+    apply Classical.byContradiction
+    intro hno
+    apply hi
+    intro k h1 h2
+    constructor
+    · apply Classical.byContradiction; intro hne; exact hno ⟨k, h1, h2, Or.inl hne⟩
+    · apply Classical.byContradiction; intro hne; exact hno ⟨k, h1, h2, Or.inr hne⟩
+
+theorem assert_exactly_one (t1 t2 : PTree τ (Leaf ε)) (h : t1.td = t2.td ∧ t1.leaves.length = t2.leaves.length) :
+    (assertEqual t1 t2 = .ok () ∧ assertDifferent t1 t2 = .error .sameValues) ∨
+    (assertEqual t1 t2 = .error .differ ∧ assertDifferent t1 t2 = .ok ()) := by
+  obtain ⟨b, hb⟩ := isEqual_some_of_structure t1 t2 h
+  cases b with
+  | true => left; exact ⟨(assertEqual_ok_iff _ _).2 hb, (assertDifferent_fails_iff _ _).2 hb⟩
+  | false => right; exact ⟨(assertEqual_fails_iff _ _).2 hb, (assertDifferent_ok_iff _ _).2 hb⟩
+
+end Pytree
+
+namespace Pytree
+variable {τ β δ : Type} [DecidableEq τ]
+
+/-! ### valid (possibly negative) static indices -/
+
+theorem normIdx_lt {n : Nat} {i : Int} (h : -(n : Int) ≤ i ∧ i < n) : normIdx n i < n := by
+  unfold normIdx Jx.wrapIdx; split <;> omega
+
+theorem staticIdx_valid {n : Nat} {i : Int} (h : -(n : Int) ≤ i ∧ i < n) : staticIdx n i = some (normIdx n i) := by
+  unfold staticIdx normIdx Jx.wrapIdx
+  simp only []
+  by_cases hneg : i < 0
+  · have h1 : ¬ (i + n < 0) := by omega
+    have h2 : ¬ (i + n ≥ n) := by omega
+    simp [hneg, h1, h2]
+  · have h2 : ¬ (i ≥ n) := by omega
+    simp [hneg, h2]
+
+theorem setWD_valid {α} (xs : List α) (v : α) {i : Int} (h : -(xs.length : Int) ≤ i ∧ i < xs.length) :
+    Jx.setWD xs i v = xs.set (normIdx xs.length i) v := by
+  unfold Jx.setWD normIdx Jx.wrapIdx
+  simp only []
+  by_cases hneg : i < 0
+  · have h1 : ¬ (i + xs.length < 0) := by omega
+    have h2 : ¬ (i + xs.length ≥ xs.length) := by omega
+    simp [hneg, h1, h2]
+  · have h2 : ¬ (i ≥ xs.length) := by omega
+    simp [hneg, h2]
+
+/-- a non-negative valid index is itself, a negative one counts from the end -/
+theorem normIdx_cases (n : Nat) (i : Int) : (0 ≤ i → (normIdx n i : Int) = i) ∧ (i < 0 → -(n : Int) ≤ i → (normIdx n i : Int) = i + n) := by
+  unfold normIdx Jx.wrapIdx; constructor <;> intro h <;> split <;> omega
+
+theorem staticIdx_some {n : Nat} {i : Int} {k : Nat} (h : staticIdx n i = some k) :
+    (-(n : Int) ≤ i ∧ i < n) ∧ k = normIdx n i := by
+  unfold staticIdx normIdx Jx.wrapIdx at *
+  simp only [] at h
+  repeat' split at h
+  all_goals (try simp at h)
+  all_goals (constructor <;> omega)
+
+/-! ### typed stack / set / slice -/
+
+theorem addElementT_structure (promote : δ → δ → δ) (cast : δ → δ → β → β) (t : PTree τ (TArr δ β)) (i : Int)
+    (e : PTree τ (TVal δ β)) (t' : PTree τ (TArr δ β)) (h : addElementT promote cast t i e = some t') :
+    t'.td = t.td ∧ t'.leaves.length = t.leaves.length ∧
+    ∀ k (hk : k < t'.leaves.length) (hk' : k < t.leaves.length),
+      t'.leaves[k].dtype = t.leaves[k].dtype ∧ t'.leaves[k].slices.length = t.leaves[k].slices.length := by
+  unfold addElementT at h
+  split at h
+  · rename_i hc
+    injection h with h; subst h
+    refine ⟨rfl, by simp [hc.2], ?_⟩
+    intro k hk hk'
+    simp [Jx.setWD_length]
+  · simp at h
+
+/-- after `tree_add_element tree i e`, slicing at `i` gives `e` converted leaf by leaf to the promoted dtype and
+then to the dtype of the tree (any valid index, negative ones included) -/
+theorem slice_addElementT_same_cast (promote : δ → δ → δ) (cast : δ → δ → β → β) (t : PTree τ (TArr δ β)) (i : Int)
+    (e : PTree τ (TVal δ β)) (hst : t.td = e.td ∧ t.leaves.length = e.leaves.length)
+    (hi : ∀ x ∈ t.leaves, -(x.slices.length : Int) ≤ i ∧ i < x.slices.length) :
+    (addElementT promote cast t i e).bind (fun t' => sliceT t' i) =
+      some { td := e.td,
+             leaves := List.zipWith (fun (a : TArr δ β) (v : TVal δ β) =>
+               ({ dtype := a.dtype,
+                  val := cast (promote a.dtype v.dtype) a.dtype (cast v.dtype (promote a.dtype v.dtype) v.val) } : TVal δ β))
+               t.leaves e.leaves } := by
+  unfold addElementT
+  simp only [hst, and_self, if_true, Option.bind_some]
+  unfold sliceT
+  simp only []
+  rw [mapM_option_eq_some _ _ (List.zipWith (fun (a : TArr δ β) (v : TVal δ β) =>
+               ({ dtype := a.dtype,
+                  val := cast (promote a.dtype v.dtype) a.dtype (cast v.dtype (promote a.dtype v.dtype) v.val) } : TVal δ β))
+               t.leaves e.leaves)]
+  · simp [hst.1]
+  · simp
+  · intro k hk hr
+    simp only [List.getElem_zipWith]
+    have hk' : k < t.leaves.length := by simp at hk; omega
+    have hx := hi t.leaves[k] (List.getElem_mem hk')
+    have hx' : -((List.map (cast t.leaves[k].dtype (promote t.leaves[k].dtype e.leaves[k].dtype)) t.leaves[k].slices).length : Int) ≤ i ∧
+        i < (List.map (cast t.leaves[k].dtype (promote t.leaves[k].dtype e.leaves[k].dtype)) t.leaves[k].slices).length := by
+      simpa using hx
+    rw [List.length_map, Jx.setWD_length, List.length_map, staticIdx_valid hx, setWD_valid _ _ hx']
+    simp [normIdx_lt hx]
+
+/-- … which is `e` itself when every leaf of `e` already has the dtype of the corresponding leaf of the tree
+(no promotion, a cast to the own dtype being the identity) -/
+theorem slice_addElementT_same (promote : δ → δ → δ) (cast : δ → δ → β → β) (hprom : ∀ d, promote d d = d)
+    (hcast : ∀ d v, cast d d v = v)
+    (t : PTree τ (TArr δ β)) (i : Int) (e : PTree τ (TVal δ β))
+    (hst : t.td = e.td ∧ t.leaves.length = e.leaves.length)
+    (hdt : ∀ k (h1 : k < t.leaves.length) (h2 : k < e.leaves.length), t.leaves[k].dtype = e.leaves[k].dtype)
+    (hi : ∀ x ∈ t.leaves, -(x.slices.length : Int) ≤ i ∧ i < x.slices.length) :
+    (addElementT promote cast t i e).bind (fun t' => sliceT t' i) = some e := by
+  rw [slice_addElementT_same_cast promote cast t i e hst hi]
+  cases e with
+  | mk tde ls =>
+    simp only [Option.some.injEq, PTree.mk.injEq, true_and]
+    apply List.ext_getElem
+    · have h2 : t.leaves.length = ls.length := hst.2
+      simp [h2]
+    · intro k h1 h2
+      simp only [List.getElem_zipWith]
+      have hk1 : k < t.leaves.length := by simp at h1; omega
+      rw [hdt k hk1 h2, hprom, hcast, hcast]
+
+theorem mapM_zipWith_congr2 {α γ δ'} (f : α → Option δ') (g : α → γ → α) (as : List α) (bs : List γ)
+    (hlen : as.length = bs.length)
+    (h : ∀ k (h1 : k < as.length) (h2 : k < bs.length), f (g as[k] bs[k]) = f as[k]) :
+    (List.zipWith g as bs).mapM f = as.mapM f := by
+  induction as generalizing bs with
+  | nil => simp
+  | cons a as ih =>
+    cases bs with
+    | nil => simp at hlen
+    | cons b bs =>
+      have h0 := h 0 (by simp) (by simp)
+      simp at h0
+      have := ih bs (by simpa using hlen) (fun k h1 h2 => by
+        have := h (k+1) (by simp; omega) (by simp; omega)
+        simpa using this)
+      simp [List.mapM_cons, h0, this]
+
+/-- … and slicing at any other index gives what was there before, PROVIDED the round trip of the stored entries through
+the promoted dtype is exact (always so when the element has the dtypes of the tree; not so e.g. for int32 entries above
+2²⁴ when the element is a float32) — indices compared after normalisation -/
+theorem slice_addElementT_other (promote : δ → δ → δ) (cast : δ → δ → β → β) (t : PTree τ (TArr δ β)) (i j : Int)
+    (e : PTree τ (TVal δ β)) (hst : t.td = e.td ∧ t.leaves.length = e.leaves.length)
+    (hi : ∀ x ∈ t.leaves, -(x.slices.length : Int) ≤ i ∧ i < x.slices.length)
+    (hij : ∀ x ∈ t.leaves, normIdx x.slices.length j ≠ normIdx x.slices.length i)
+    (hrt : ∀ k (h1 : k < t.leaves.length) (h2 : k < e.leaves.length), ∀ x ∈ t.leaves[k].slices,
+      cast (promote t.leaves[k].dtype e.leaves[k].dtype) t.leaves[k].dtype
+        (cast t.leaves[k].dtype (promote t.leaves[k].dtype e.leaves[k].dtype) x) = x) :
+    (addElementT promote cast t i e).bind (fun t' => sliceT t' j) = sliceT t j := by
+  unfold addElementT
+  simp only [hst, and_self, if_true, Option.bind_some]
+  unfold sliceT
+  simp only []
+  rw [mapM_zipWith_congr2 _ _ _ _ hst.2, hst.1]
+  intro k h1 h2
+  have ha : t.leaves[k] ∈ t.leaves := List.getElem_mem h1
+  have hx := hi _ ha
+  have hne := hij _ ha
+  have hx' : -((List.map (cast t.leaves[k].dtype (promote t.leaves[k].dtype e.leaves[k].dtype)) t.leaves[k].slices).length : Int) ≤ i ∧
+      i < (List.map (cast t.leaves[k].dtype (promote t.leaves[k].dtype e.leaves[k].dtype)) t.leaves[k].slices).length := by
+    simpa using hx
+  simp only [List.length_map, Jx.setWD_length]
+  rw [setWD_valid _ _ hx']
+  cases hs : staticIdx t.leaves[k].slices.length j with
+  | none => rfl
+  | some m =>
+    obtain ⟨hjv, rfl⟩ := staticIdx_some hs
+    have hm := normIdx_lt hjv
+    simp only [List.length_map, Option.bind_some, List.getElem?_map, List.getElem?_set, Ne.symm hne, if_false,
+      List.getElem?_eq_getElem hm, Option.map_some]
+    rw [hrt k h1 h2 _ (List.getElem_mem hm)]
+
+/-- the same when the element has the dtypes of the tree: nothing but index `i` changes -/
+theorem slice_addElementT_other_same_dtype (promote : δ → δ → δ) (cast : δ → δ → β → β) (hprom : ∀ d, promote d d = d)
+    (hcast : ∀ d v, cast d d v = v) (t : PTree τ (TArr δ β)) (i j : Int)
+    (e : PTree τ (TVal δ β)) (hst : t.td = e.td ∧ t.leaves.length = e.leaves.length)
+    (hdt : ∀ k (h1 : k < t.leaves.length) (h2 : k < e.leaves.length), t.leaves[k].dtype = e.leaves[k].dtype)
+    (hi : ∀ x ∈ t.leaves, -(x.slices.length : Int) ≤ i ∧ i < x.slices.length)
+    (hij : ∀ x ∈ t.leaves, normIdx x.slices.length j ≠ normIdx x.slices.length i) :
+    (addElementT promote cast t i e).bind (fun t' => sliceT t' j) = sliceT t j := by
+  apply slice_addElementT_other promote cast t i j e hst hi hij
+  intro k h1 h2 x _
+  rw [hdt k h1 h2, hprom, hcast, hcast]
+
+end Pytree
